@@ -502,22 +502,33 @@ func (bc *BlockChain) insert(block *types.Block) {
 	// If the block is on a side chain or an unknown one, force other heads onto it too
 	updateHeads := GetCanonicalHash(bc.db, block.NumberU64()) != block.Hash()
 
-	// Add the block to the canonical chain number scheme and mark as the head
-	if err := WriteCanonicalHash(bc.db, block.Hash(), block.NumberU64()); err != nil {
+	// Add the block to the canonical chain number scheme and mark as the head.
+	// The number assignment and the head markers go to disk in one atomic batch:
+	// written one by one, a crash between them leaves a head block whose
+	// ancestry disagrees with the number index (reorg re-points numbers at or
+	// below the current head's height)
+	batch := bc.db.NewBatch()
+	if err := WriteCanonicalHash(batch, block.Hash(), block.NumberU64()); err != nil {
 		log.Crit("Failed to insert block number", "err", err)
 	}
-	if err := WriteHeadBlockHash(bc.db, block.Hash()); err != nil {
+	if err := WriteHeadBlockHash(batch, block.Hash()); err != nil {
 		log.Crit("Failed to insert head block hash", "err", err)
 	}
-	bc.currentBlock.Store(block)
-
 	// If the block is better than our head or is on a different chain, force update heads
 	if updateHeads {
-		bc.hc.SetCurrentHeader(block.Header())
-
-		if err := WriteHeadFastBlockHash(bc.db, block.Hash()); err != nil {
+		if err := WriteHeadHeaderHash(batch, block.Hash()); err != nil {
+			log.Crit("Failed to insert head header hash", "err", err)
+		}
+		if err := WriteHeadFastBlockHash(batch, block.Hash()); err != nil {
 			log.Crit("Failed to insert head fast block hash", "err", err)
 		}
+	}
+	if err := batch.Write(); err != nil {
+		log.Crit("Failed to insert head block", "err", err)
+	}
+	bc.currentBlock.Store(block)
+	if updateHeads {
+		bc.hc.setCurrentHeaderInMemory(block.Header())
 		bc.currentFastBlock.Store(block)
 	}
 }
